@@ -117,3 +117,24 @@ Proof.
   unfold kfilter, kf, kfilter. induction fs as [|f fs IH]; cbn; [reflexivity|].
   now rewrite filter_app, IH.
 Qed.
+
+Lemma ssorted_strict_sortedb l : ssorted l -> (forall k, desc_ts (kfilter k l)) -> sorted_entriesb l = true.
+Proof.
+  induction l as [|x r IH]; [reflexivity|]. intros [Hx Hr] Hd.
+  destruct r as [|y r']; [reflexivity|].
+  change (sorted_entriesb (x :: y :: r')) with (entry_leb x y && negb (entry_leb y x) && sorted_entriesb (y :: r')).
+  rewrite (Hx y (or_introl eq_refl)). cbn [andb].
+  rewrite IH; [|exact Hr|].
+  - rewrite andb_true_r. apply negb_true_iff. destruct (entry_leb y x) eqn:E; [exfalso|reflexivity].
+    pose proof (Hx y (or_introl eq_refl)) as Exy. unfold entry_leb in E, Exy.
+    destruct (lex_cmp (ek x) (ek y)) eqn:C; try discriminate.
+    + (* same key: both timestamp comparisons hold, so equal timestamps, against strictness *)
+      pose proof (lex_cmp_eq _ _ C) as Ek. rewrite (lex_cmp_antisym (ek x) (ek y)), C in E. cbn in E.
+      apply N.leb_le in E, Exy. specialize (Hd (ek x)). unfold kfilter in Hd. cbn [filter] in Hd.
+      rewrite key_eqb_refl in Hd. rewrite <- Ek, key_eqb_refl in Hd. cbn [desc_ts] in Hd.
+      destruct Hd as [Hd _]. specialize (Hd y (or_introl eq_refl)). lia.
+    + rewrite (lex_cmp_antisym (ek x) (ek y)), C in E. cbn in E. discriminate.
+  - intros k. specialize (Hd k). unfold kfilter in *. cbn [filter] in Hd.
+    destruct (key_eqb (ek x) k); [cbn [desc_ts] in Hd; tauto|exact Hd].
+Qed.
+
